@@ -32,6 +32,7 @@ type c11Case struct {
 	BalMode  int // 0 exact, 1 exact-1, 2 zero, 3 unknown denom
 	DepKind  int // 0 SendToHubEvent, 1 TransferToChainEvent->hub, 2 TransferToChainEvent->bsc (onward transfer scheduled)
 	SrcRate  int   // cross-chain deposits: commission rate of the ORIGINATING chain's row, 0 = the same as the destination's, i+1 = c11Rates[i]
+	Supply   uint  // deposits: 2^Supply hub units of the denom already circulate (they came in through another listing of the denom)
 	Residue  int64 // hub units sitting on the module's transit account before the deposit (left there by earlier fee payouts)
 }
 
@@ -97,6 +98,17 @@ func c11Run(in *hub.Instance, cs c11Case) c11Res {
 		return c11CrossChain(in, cs, val, rate, bad)
 	}
 	if cs.Kind == "deposit" {
+		supply0 := new(big.Int)
+		if cs.Supply > 0 {
+			supply0.Lsh(big.NewInt(1), cs.Supply)
+			c := sdk.NewCoins(sdk.NewCoin("hub", sdk.NewIntFromBigInt(supply0)))
+			if err := in.Bank.MintCoins(ctx, mhubtypes.ModuleName, c); err != nil {
+				panic(err)
+			}
+			if err := in.Bank.SendCoinsFromModuleToAccount(ctx, mhubtypes.ModuleName, hub.User("other-holder"), c); err != nil {
+				panic(err)
+			}
+		}
 		var ev mhubtypes.ExternalEvent
 		if cs.DepKind == 0 {
 			ev = &mhubtypes.SendToHubEvent{EventNonce: 1, ExternalCoinId: EthHub, Amount: sdk.NewIntFromBigInt(cs.Amount), Sender: hub.HexAddr("s"), CosmosReceiver: user.String(), ExternalHeight: 10, TxHash: "0xd"}
@@ -116,13 +128,14 @@ func c11Run(in *hub.Instance, cs c11Case) c11Res {
 		// exact credit: floor(amount * 10^18 / 10^dec); if the event failed as a whole nothing is credited
 		want := new(big.Int).Mul(cs.Amount, pow10(18))
 		want.Quo(want, pow10(int64(cs.Dec)))
-		if got.Sign() == 0 && want.BitLen() > 255 {
+		if got.Sign() == 0 && (want.BitLen() > 255 || new(big.Int).Add(want, supply0).BitLen() > 256) {
 			return c11Res{outcome: "deposit-failed-overflow"}
 		}
 		if got.Cmp(want) != 0 {
 			return bad("deposit_credit_not_exact", "Handle(SendToHubEvent)", "recipient credited %s, locked amount converts to %s", got, want)
 		}
 		sup := in.Bank.GetSupply(in.Ctx(), "hub").Amount.BigInt()
+		sup.Sub(sup, supply0)
 		if sup.Cmp(want) != 0 {
 			return bad("deposit_supply_growth_not_exact", "Handle(SendToHubEvent)", "supply grew by %s, locked amount converts to %s", sup, want)
 		}
@@ -296,6 +309,13 @@ func c11Cases(tier string) []c11Case {
 			}
 		}
 	}
+	// deposits through a listing with more than 18 decimals while 2^255 units of the denom circulate already: the raw
+	// amount (external units) is far above what is minted
+	for _, a := range []*big.Int{new(big.Int).Lsh(big.NewInt(1), 255), new(big.Int).Lsh(big.NewInt(1), 210), pow10(30)} {
+		for dk := 0; dk < 2; dk++ {
+			out = append(out, c11Case{Kind: "deposit", Amount: a, Fee: big.NewInt(3), Dec: 24, DepKind: dk, Supply: 255})
+		}
+	}
 	// deposits bound for another chain, on a clean transit account and on one that holds a residue
 	for _, a := range am {
 		for _, d := range decs {
@@ -463,7 +483,7 @@ func init() {
 			}
 			out.Evidence = map[string]interface{}{"level": "exploration", "coverage": map[string]interface{}{
 				"evaluations": len(cases), "distinct_nontrivial": nontrivial,
-				"rule":        "Cartesian grid: amount, fee in {1,2,99,100,101,1e18-1,1e18,2^200} x external decimals {0,6,18,24} x commission rate {0,1e-18,1%,99.99%} x (sender balance {exact, exact-1, 0, unknown denom} | holder value at tier boundaries x {sender holds, recipient holds}) plus every pair (sender holding, recipient holding) of tier-boundary values compared with the two single-holder runs, plus deposits (both event kinds) over amount x decimals, plus deposits bound for another chain over amount x decimals x rate x {clean transit account, residue} and x every other rate on the originating chain's listing; each tuple is executed on a fresh real instance; non-trivial = the request/event took effect (was not rejected)",
+				"rule":        "Cartesian grid: amount, fee in {1,2,99,100,101,1e18-1,1e18,2^200} x external decimals {0,6,18,24} x commission rate {0,1e-18,1%,99.99%} x (sender balance {exact, exact-1, 0, unknown denom} | holder value at tier boundaries x {sender holds, recipient holds}) plus every pair (sender holding, recipient holding) of tier-boundary values compared with the two single-holder runs, plus deposits (both event kinds) over amount x decimals, plus deposits bound for another chain over amount x decimals x rate x {clean transit account, residue} and x every other rate on the originating chain's listing, plus deposits of {2^255, 2^210, 10^30} raw units through a 24-decimals listing while 2^255 hub units of the denom circulate; each tuple is executed on a fresh real instance; non-trivial = the request/event took effect (was not rejected)",
 				"samples":     samples, "outcomes": outcomes, "exhaustive": true,
 			}, "assumptions": []string{"the discount tier table itself is not part of the property: with a non-zero holding only the upper bound rate*(amount+fee) and the scheduled-amount bounds are demanded; with no holding equality is demanded; when both parties hold, the commission may not be lower than the lower of the two single-holder commissions measured on the same code", "block failures during deposit processing belong to C05"}}
 			out.Summary = fmt.Sprintf("cases=%d outcomes=%v violations=%d (%s)", len(cases), outcomes, len(out.Violations), time.Since(start).Round(time.Millisecond))
